@@ -21,7 +21,10 @@ use core::ptr;
 use core::sync::atomic::AtomicPtr;
 #[cfg(arc_swap_verif)]
 use verif_rt::atomic::AtomicPtr;
+#[cfg(not(arc_swap_verif))]
 use core::sync::atomic::fence;
+#[cfg(arc_swap_verif)]
+use verif_rt::atomic::fence;
 use core::sync::atomic::Ordering::*;
 
 use super::sealed::{CaS, InnerStrategy, Protected};
